@@ -4,7 +4,8 @@ from props import sess_common as sc
 
 THEOREMS = ['C16_step', 'C16_run', 'C16_consecutive', 'C16_no_repeats', 'C16_control_step', 'C16_control_history',
             'C16_control_from_start', 'C16_finding_control_ahead', 'C16_finding_control_ahead_logout',
-            'C16_regression_control_after_reject', 'C16_finding_no_increment_repeat']
+            'C16_regression_control_after_reject', 'C16_finding_no_increment_repeat',
+            'C16X_step', 'C16X_run', 'C16X_consecutive', 'C16X_no_repeats', 'C16X_control_step', 'C16X_control_history']
 
 
 class Oracle:
@@ -72,7 +73,7 @@ class Oracle:
                 self.dirty = 'control-ahead-after-no-increment'
             elif w[0] == 'in' and ((a.get('dec') == 'throw' and a.get('fl') == '0') or b'\x0134=' not in bytes.fromhex(w[1])):
                 self.dirty = None            # reject exit: persists since the repair of control-behind-after-reject
-            elif w[0] in ('new', 'restart', 'app', 'adm', 'batch', 'bbatch', 'fwd') or (w[0] == 'in' and a.get('dec') == 'ok' and summ['sd'] == 0):
+            elif w[0] in ('new', 'restart', 'app', 'adm', 'batch', 'bbatch', 'fwd', 'dbatch', 'wfail') or (w[0] == 'in' and a.get('dec') == 'ok' and summ['sd'] == 0):
                 self.dirty = None            # an effective step outside the excluded classes: the record must be right
             if good:
                 self.dirty = None
@@ -91,10 +92,10 @@ def run(res, replay=None):
     else:
         n = (40, 45) if res.tier == 'quick' else (400, 60)
         w = sc.weights(app=22, batch=12, adm=6, app_flags=2, adm_flags=1, restart=7, resend_request=6, corrupt=5, test_request=5,
-                       in_seq=14, too_high=4, logon_again=2, _always=0.08)
+                       in_seq=14, too_high=4, logon_again=2, _always=0.08, _ext=0.12)
         lines, _ = sc.generate('C16', res.seed, n[0], n[1], w, persist=('mem', 'file', 'file', 'none'))
         lines = vlib.corpus_lines('C16') + lines
-    res.assumptions += ['initiator role; model and theorems are for _always_seqnum_assign = false (8% of the segments run with it on, with forwarded messages that already carry a MsgSeqNum: those segments are judged by the property oracle only); sends succeed at the socket (send() of the connection is captured, never fails)',
+    res.assumptions += ['initiator role; model and theorems are for _always_seqnum_assign = false (8% of the segments run with it on, with forwarded messages that already carry a MsgSeqNum: those segments are judged by the property oracle only); in the modelled segments sends succeed at the socket (send() of the connection is captured); 12% of the segments (marked X; modelled by Sess.stepX, theorems C16X_*) add application retransmissions (a message that already carries a MsgSeqNum) alone and inside / at the tail of a batch, and application sends whose socket write fails',
                         'a restart = destroy Session and Connection, new objects over the same persister (FilePersister: files reopened), start() with recovery',
                         'MemoryPersister / FilePersister behave as the store specification (C26); no crash between the steps of a send (C27)']
     res.cov['rule'] = ('segments = fresh session (mem / file / no persister; 10% with configured start numbers) + logon handshake, then random mixes weighted towards application sends, batches of 1..6, '
